@@ -39,3 +39,20 @@ Theorem C01_eos_iff_complete : forall (G : grammar BoolSR) (s' s eos : nat) (h :
   W (add_eos s' s eos G) (Datatypes.S h) s' (xs ++ [eos]) = W G h s xs.
 Proof. intros; apply add_eos_W; assumption. Qed.
 Print Assumptions C01_eos_iff_complete.
+
+(* String level: a context is viable (its mask bit is set at some height) exactly when it is a prefix of a STRING of
+   the grammar; viability is prefix-closed, so a context that is not viable has an empty mask: every extension by a
+   token is non-viable at every height. *)
+From GV.proofs Require MaskStringsProofs.
+Theorem C01_viable_iff_completable : forall (G : grammar BoolSR) (X : nat) (p : list nat),
+  ((exists h, Wpre G h X p = true) <-> (exists xs, is_prefix p xs = true /\ MaskStringsProofs.in_language G X xs)) /\
+  (forall q, (exists h, Wpre G h X (p ++ q) = true) -> (exists h, Wpre G h X p = true)) /\
+  ((forall h, Wpre G h X p = false) -> forall t h, Wpre G h X (p ++ [t]) = false) /\
+  (forall xs, MaskStringsProofs.in_language G X xs <-> exists t, twf BoolSR G (N X) t /\ tyield t = xs /\ tweight t = true).
+Proof.
+  intros G X p.
+  split; [exact (MaskStringsProofs.viable_iff_completable G X p)|].
+  split; [intros q; exact (MaskStringsProofs.viable_prefix_closed G X p q)|].
+  split; [exact (MaskStringsProofs.nonviable_mask_empty G X p)|intros xs; exact (MaskStringsProofs.language_iff_tree G X xs)].
+Qed.
+Print Assumptions C01_viable_iff_completable.
